@@ -196,6 +196,41 @@ fn check_one_price(cfg: &Cfg, xs: &[f64], out: &mut JobOut) {
     }
 }
 
+/// scalar inputs and one-price bars mixed on ONE instance (every assignment of the two paths to the
+/// positions of the stream) vs the pure scalar path
+fn check_mixed_paths(cfg: &Cfg, xs: &[f64], out: &mut JobOut) {
+    let len = xs.len();
+    let b = match run_all(cfg, |s, i| s.next_s(xs[i]), len) {
+        Ok(b) => b,
+        Err(()) => return, // reported by check_one_price
+    };
+    let m = xs.iter().fold(0.0f64, |a, x| a.max(x.abs()));
+    for mask in 1u32..(1u32 << len) - 1 {
+        let a = run_all(cfg, |s, i| if mask >> i & 1 == 1 { s.next_b(&Bar { o: xs[i], h: xs[i], l: xs[i], c: xs[i], v: 1.0 }) } else { s.next_s(xs[i]) }, len);
+        out.stats.traces += 1;
+        out.stats.transitions += len as u64;
+        out.stats.evaluations += 1;
+        let ops = |upto: usize| -> Vec<Op> { (0..=upto).map(|i| if mask >> i & 1 == 1 { Op::B(Bar { o: xs[i], h: xs[i], l: xs[i], c: xs[i], v: 1.0 }) } else { Op::S(xs[i]) }).collect() };
+        match a {
+            Ok(a) => {
+                let diff = if cfg.kind == Kind::Kc {
+                    (0..a.len()).find(|&i| (0..3).any(|j| !(rel_eq(a[i].v[j], b[i].v[j], 1e-12) || (a[i].v[j] - b[i].v[j]).abs() <= 1e-12 * m * cfg.mult.abs().max(1.0))))
+                } else {
+                    first_diff(&a, &b)
+                };
+                if let Some(i) = diff {
+                    out.fail(Violation::new(PROP, cfg, &ops(i), "one-price-bar-differs-from-scalar").obs(out2s(&a[i])).exp(out2s(&b[i])).det("one instance fed a mix of scalars and one-price bars differs from the pure scalar path on the same prices".into()));
+                    return;
+                }
+            }
+            Err(()) => {
+                out.fail(Violation::new(PROP, cfg, &ops(len - 1), "panic").obs("panic".into()).exp("outputs".into()));
+                return;
+            }
+        }
+    }
+}
+
 /// DataItem vs any other implementor carrying the same numbers (valid bars only)
 fn check_dataitem(cfg: &Cfg, bars: &[Bar], out: &mut JobOut) {
     let items: Vec<DataItem> = bars.iter().map(|b| DataItem::builder().open(b.o).high(b.h).low(b.l).close(b.c).volume(b.v).build().expect("valid bar")).collect();
@@ -325,6 +360,16 @@ pub fn run(ctx: &Ctx) -> CheckResult {
                     !out.failed()
                 });
             }
+            // both paths mixed on one instance: all 2^L - 2 assignments on the shorter streams
+            if !out.failed() {
+                for_each_seq_exact(xs.len(), d1 - 2, |seq| {
+                    v.clear();
+                    v.extend(seq.iter().map(|&a| xs[a as usize]));
+                    out.stats.states += 1;
+                    check_mixed_paths(cfg, &v, &mut out);
+                    !out.failed()
+                });
+            }
             out
         });
         res.absorb(merge_jobs(outs));
@@ -390,7 +435,7 @@ pub fn run(ctx: &Ctx) -> CheckResult {
     }
     res.extra.insert("documented_fields".into(), json!(ALL_KINDS.iter().map(|k| (k.name().to_string(), format!("{:?}", documented(*k)))).collect::<std::collections::BTreeMap<_, _>>()));
     res.rule = "case = (configuration, bar sequence): outputs of Next<&T> on bars whose five fields vary independently compared (1e-12 relative) with (i) Next<f64> on the documented field, (iii) the same sequence with every undocumented field replaced (all at once finite / NaN, and one at a time), (iv) a second implementor storing integers, and DataItem on valid bars; (ii) one-price bars vs scalar path; non-trivial = perturbation comparisons".into();
-    res.bounds = format!("all 22 indicators, periods {{1,3}}; all 10^{depth} sequences over B_free (incl. zero and negative closes, highs, volumes); three 160-bar streams of quiet closes (100*(1 +- a few 1e-6)) for every close/low/high-reading indicator incl. the documented defaults; one-price: all 5^{} scalar sequences over {{1,2.5,0.1,7,-3}} and over {{1, 0.75, 0.75+1ulp, 2e-17, 3e-17}} for FAST_STOCH/SLOW_STOCH/TR/ATR/KC n in {{1,2,3,5}}; DataItem: all 12^{} sequences of valid bars (incl. open/close within 1e-9 of an extreme)", if th { 7 } else { 6 }, if th { 5 } else { 4 });
+    res.bounds = format!("all 22 indicators, periods {{1,3}}; all 10^{depth} sequences over B_free (incl. zero and negative closes, highs, volumes); three 160-bar streams of quiet closes (100*(1 +- a few 1e-6)) for every close/low/high-reading indicator incl. the documented defaults; one-price: all 5^{} scalar sequences over {{1,2.5,0.1,7,-3}} and over {{1, 0.75, 0.75+1ulp, 2e-17, 3e-17}} for FAST_STOCH/SLOW_STOCH/TR/ATR/KC n in {{1,2,3,5}}, and every assignment of {{scalar, one-price bar}} to the positions of all streams two steps shorter (both paths mixed on one instance); DataItem: all 12^{} sequences of valid bars (incl. open/close within 1e-9 of an extreme)", if th { 7 } else { 6 }, if th { 5 } else { 4 });
     res.assumptions = vec!["minimal-trait user types (CloseOnly, Hlc, ...) are compiled and run by the separate /verif/surface crate as part of this check".into()];
     res
 }
